@@ -166,8 +166,19 @@ class Rejected(Exception):
         self.info = info or {}
 
 
+def auto_layout(names, seqs):
+    """A file layout chosen by the content itself (a pure function of the records, so every case is reproducible): wrap
+    width, line terminator and whether the last line is terminated.  The layout never matters (C04), so every check that
+    feeds FASTA files exercises all layouts instead of one."""
+    import zlib
+    h = zlib.crc32(("\x00".join(names) + "\x01" + "\x00".join(seqs)).encode("latin-1", "replace"))
+    return {"width": [0, 0, 60, 80, 7, 61][h % 6], "eol": "\r\n" if (h // 6) % 5 == 0 else "\n", "final_eol": (h // 30) % 3 != 0}
+
+
 def align_named(names, seqs, cfg, variant="asan", env=None, hook=None, delays=None, codes=False, width=0, layout=None):
     """One FASTA file -> read+run+dump. Returns dict(names, rows, biotype, alnlen, run)."""
+    if layout is None and width == 0:
+        layout = auto_layout(names, seqs)
     wd = runner.workdir()
     fp = wd.write(fasta_bytes(names, seqs, width=width, layout=layout), ".fa")
     r = run_files([fp], cfg, variant=variant, env=env, hook=hook, delays=delays, codes=codes)
@@ -191,7 +202,7 @@ def align_named_files(names, seqs, cfg, cuts, variant="asan", env=None):
     """The records split over several FASTA files at `cuts` (record indices), read into one msa object in order."""
     wd = runner.workdir()
     bounds = [0] + list(cuts) + [len(seqs)]
-    files = [wd.write(fasta_bytes(names[a:b], seqs[a:b]), ".fa") for a, b in zip(bounds, bounds[1:]) if b > a]
+    files = [wd.write(fasta_bytes(names[a:b], seqs[a:b], layout=auto_layout(names[a:b], seqs[a:b])), ".fa") for a, b in zip(bounds, bounds[1:]) if b > a]
     r = run_files(files, cfg, variant=variant, env=env)
     if any(x != 0 for x in r["read_rcs"]) or r["run_rc"] != 0 or r["msa"] is None:
         raise Rejected("read/run failed", {"read": r["read_rcs"], "run": r["run_rc"]})
